@@ -331,6 +331,10 @@ decreasing_by all_goals (simp only [List.length_drop, List.length_cons]; omega)
 def isPrefixOf (lc : Bool) (pre s : Bytes) : Bool :=
   pre.length ≤ s.length && (if lc then eqIcase (s.take pre.length) pre else s.take pre.length == pre)
 
+/-- config time (mod_cgi.c / gw_backend.c SETDEFAULTS, after the "must begin with '/'" test):
+    `buffer_path_simplify(&ds->value); buffer_append_slash(&ds->value);` -/
+def xsfConfigEntry (v : Bytes) : Bytes := appendSlash (pathSimplify v)
+
 inductive XsfRes
   | status (st : Nat)            -- refused with this status, nothing opened
   | send (path : Bytes)          -- path handed to the file layer
